@@ -34,7 +34,7 @@ function tokenPositions (code) {
 function buildOriginalMap (code, shape) {
   const toks = tokenPositions(code)
   const nsrc = shape.sources
-  const sources = ['src/a.ts', 'src/b.ts', 'lib/c.ts'].slice(0, nsrc)
+  const sources = (shape.sourceNames || ['src/a.ts', 'src/b.ts', 'lib/c.ts']).slice(0, nsrc)
   const names = []
   const segs = []
   const keep = (t, i) => {
@@ -73,6 +73,10 @@ MAP_SHAPES.push({ density: 'one_per_line', sources: 1, names: false, sourceRoot:
 MAP_SHAPES.push({ density: 'every_token', sources: 1, names: false, sourceRoot: '' })
 MAP_SHAPES.push({ density: 'every_token', sources: 1, names: false, sourceRoot: '/abs/root' })
 MAP_SHAPES.push({ density: 'sparse', sources: 2, names: true, sourcesContent: true })
+// source names and symbol names with non-ASCII text, queries, spaces: the JSON then holds bytes that the two base64
+// alphabets encode differently
+MAP_SHAPES.push({ density: 'every_token', sources: 3, names: true, sourceNames: ['src/café/例え.ts', 'webpack://app/./src/autil.ts?4f2a', '~/lib/x y.ts'] })
+MAP_SHAPES.push({ density: 'one_per_line', sources: 2, names: false, sourceNames: ['>>>?~.ts', 'ñ'], sourceRoot: 'rôot/' })
 MAP_SHAPES.push({ density: 'last_line_only', sources: 1, names: false })
 MAP_SHAPES.push({ density: 'beyond', sources: 1, names: false })
 MAP_SHAPES.push({ density: 'beyond', sources: 1, names: true, sourceRoot: 'webpack://app/' })
@@ -328,7 +332,7 @@ module.exports = {
   build,
   requests,
   check,
-  rule: 'leaf = program x reference kind (17: inline / relative / ./ / ../ / absolute / missing / directory / denied / empty / malformed / not-a-map / index map / bad base64 / none / block form / two comments) x original-map shape (28: density, 1-3 sources, names, sourceRoot, sourcesContent, source-less segments, last line only, nothing resolves) x chain x comments x look-alike text, k deviations among program/shape/look-alike; plus family E: every sequence of 1-2 (3) trailing comments over six reference kinds and an ordinary comment, adjacent or separated by code, x chain x comments (the last reference decides); plus family D: the dense map with every subset of <= kd tokens dropped / source-less / re-targeted / shifted / named; each leaf = three real calls (as configured, chaining off, without the reference comment); non-trivial = modified; distinct by (input text, chain, comments)',
+  rule: 'leaf = program x reference kind (17: inline / relative / ./ / ../ / absolute / missing / directory / denied / empty / malformed / not-a-map / index map / bad base64 / none / block form / two comments) x original-map shape (30: density, 1-3 sources, names, sourceRoot, sourcesContent, source-less segments, last line only, nothing resolves) x chain x comments x look-alike text, k deviations among program/shape/look-alike; plus family E: every sequence of 1-2 (3) trailing comments over six reference kinds and an ordinary comment, adjacent or separated by code, x chain x comments (the last reference decides); plus family D: the dense map with every subset of <= kd tokens dropped / source-less / re-targeted / shifted / named; each leaf = three real calls (as configured, chaining off, without the reference comment); non-trivial = modified; distinct by (input text, chain, comments)',
   explanation: 'explicit enumeration of reference kinds, reader answers and map shapes; oracle = independent two-step composition (rewrite map from the chaining-off call, generator-built original map, global greatest-lower-bound, sourceRoot resolution) compared entry by entry with the decoded trailer; fallback must equal the plain rewrite map; content minus trailer must be byte-identical (up to an emptied comment remnant) to the content of the same program without the reference',
   assumptions: ['original maps are synthetic (any valid map must compose)', 'an emptied `//` or `/**/` remnant of the removed comment is tolerated', 'a sourceMappingURL comment that is followed by more code is not judged (only the end-of-file comment is the superseded one)']
 }
